@@ -26,6 +26,9 @@ MUTATORS = re.compile(
     r"|tempfile::(file::)?NamedTempFile(<.*>)?::persist|tempfile::Builder::tempfile_in|tempfile::Builder::tempfile|tempfile::(file::)?tempfile")
 
 
+UNLINK = r"helpers::unlink(_output)?|nix::unistd::unlink|std::fs::remove_file"
+
+
 def is_mutator_call(t):
     ps = callee_paths(t)
     if not any(MUTATORS.fullmatch(p) for p in ps):
@@ -77,7 +80,7 @@ def run(ctx):
                 target_mut.append((b, i, common.short(callee_paths(t)[0]), hit))
     ctx.floor("R4.1", "parent-side filesystem mutator call sites examined", n_mut, 8)
     allowed = {("std::fs::rename", (1,)), ("helpers::unlink", (0,))}
-    target_mut = [(b, i, "helpers::unlink" if name == "helpers::unlink_output" else name, hit) for (b, i, name, hit) in target_mut]
+    target_mut = [(b, i, "helpers::unlink" if re.fullmatch(UNLINK, name) else name, hit) for (b, i, name, hit) in target_mut]
     seen = {}
     for b, i, name, hit in target_mut:
         key = (name, tuple(hit))
@@ -164,7 +167,7 @@ def run(ctx):
     if ctx.ob("R4.3", "%s|final-status-test" % R.key, len(final) == 1, where=R.span, detail="%d `rv != EXIT_SUCCESS` tests dominate set_failed" % len(final)):
         sw, ne_t = final[0]
         common.mpt(ctx, "R4.3", "%s|final-test-on-every-path" % R.key, R, [0], rba.returns(), [sw], "every path passes the final status test", "a path returns without the final status test")
-        unl_tmp = [i for i in rba.calls_deep(r"helpers::unlink", prog) if rba.edge_dominates((sw, ne_t), i)]
+        unl_tmp = [i for i in rba.calls_deep(UNLINK, prog) if rba.edge_dominates((sw, ne_t), i)]
         saves = rba.calls(r"state::File::save")
         common.mpt(ctx, "R4.3", "%s|failure=>tmp-removed" % R.key, R, [ne_t], saves, unl_tmp, "on failure the temp output is removed", "a failed build leaves its temp output behind")
         if unl_tmp:
@@ -177,7 +180,7 @@ def run(ctx):
     # ---- R4.4
     sba = BA.of(SS)
     forks = sba.calls(anchors.FORK_START)
-    unl = sba.calls_deep(r"helpers::unlink", prog)
+    unl = sba.calls_deep(UNLINK, prog)
     common.mpt_fl(ctx, "R4.4", "%s|stale-tmp-removed-before-fork" % SS.key, SS, [0], forks, unl, "helpers::unlink(tmp_name) precedes the fork", "a stale $3 from a killed run survives into the new build (and is taken for output)")
     if unl:
         a = op_local(SS.blocks[unl[0]]["term"]["args"][0])
@@ -230,7 +233,7 @@ def tmp_name_seeds(prog, SS):
     sba = BA.of(SS)
     forks = sba.calls(anchors.FORK_START)
     seeds = set()
-    for u in sba.calls_deep(r"helpers::unlink", prog):
+    for u in sba.calls_deep(UNLINK, prog):
         if not forks or not any(sba.dominates(u, f) for f in forks):
             continue
         a = op_local(SS.blocks[u]["term"]["args"][0])
